@@ -10,9 +10,10 @@ Round 2: the geometry functions duplicated in this model are proved equal to the
 (Props/Cross03_11.lean), C11's distance theorems are transferred, and with them `nerNet_valid` is proved in
 full on the fault-free machine (mesh or torus, every size, radius, tape), together with the absence of every
 non-oracle error of `ner_net` / of `route()` on the fault-free machine.
+`aStar_complete` and `aStar_only_disconnected` are proved for every machine.
 NOT proved (validated per case by the oracle): chip-distinctness / connectedness after the repair
-loop (`avoidDeadLinks_valid`, false on the unrepaired code: defect F3), `aStar_complete`, absence of the
-non-`Disconnected` model errors when the dead-link repair runs.
+loop (`avoidDeadLinks_valid`, false on the unrepaired code: defect F3), absence of the non-`Disconnected`
+model errors of the repair loop itself (dfs fuel, "Cycle created" assertion) when the dead-link repair runs.
 -/
 import RigModel.Model.C03
 import RigModel.Lemmas.C03Tree
@@ -23,6 +24,8 @@ import RigModel.Lemmas.C03Repair
 import RigModel.Lemmas.C03Forest
 import RigModel.Lemmas.C03NerValid
 import RigModel.Lemmas.C03AStarComplete
+import RigModel.Lemmas.C03AStarTotal
+import RigModel.Lemmas.C03Strong
 import RigModel.Props.Cross03_11
 set_option linter.unusedSimpArgs false
 set_option linter.unusedVariables false
@@ -336,5 +339,34 @@ theorem aStar_complete (m : Machine) (sink hsrc : Chip) (sources : List Chip) (w
 /-- non-vacuity: on a 3 x 1 machine whose chip (1, 0) is dead and whose wrap links are dead, (2, 0) is cut off -/
 example : aStar (0, 0) (2, 0) [(2, 0)] ⟨3, 1, [(1, 0)], [((2, 0), 0), ((2, 0), 1), ((2, 0), 5), ((2, 0), 2),
     ((2, 0), 4)]⟩ false = .error .disconnected := by rfl
+
+/-- **`a_star` raises nothing but the disconnected-machine error** - on every machine (any dead chips / links),
+for a sink inside the machine that is not itself one of the sources (as in `avoid_dead_links`): the fuel
+`w * h + 1` of the model's `while heap` loop is never exhausted (every iteration expands a different chip) and
+the walk back over `visited` never meets a missing key or a `None` predecessor.  Together with `aStar_path` and
+`aStar_complete`: `a_star` either returns a chain of working links from a source to the sink, or reports
+`MachineHasDisconnectedSubregion`, the latter only if no source reaches the sink. -/
+theorem aStar_only_disconnected (m : Machine) (sink hsrc : Chip) (sources : List Chip) (wrap : Bool)
+    (hsink : InRange m sink) (hns : sources.contains sink = false) (e : Err)
+    (h : aStar sink hsrc sources m wrap = .error e) : e = .disconnected :=
+  L.aStar_only_disconnected m sink hsrc sources wrap hsink hns e h
+
+/-- **The strong-connectivity oracle is sound.**  The harness decides the error clause ("if all working chips
+can reach each other the router succeeds") with the executable `stronglyConnected`; whenever it evaluates to
+true, every working chip does reach every working chip over working links between working chips. -/
+theorem stronglyConnected_sound (m : Machine) (hs : stronglyConnected m = true) (a b : Chip)
+    (ha : chipOk m a = true) (hb : chipOk m b = true) : Reach m a b :=
+  L.stronglyConnected_sound m hs a b ha hb
+
+/-- **On a strongly connected machine `a_star` succeeds** (sink a working chip that is not a source, at least
+one source a working chip - what `avoid_dead_links` passes).  This is the `a_star` part of
+`route_only_failure`. -/
+theorem aStar_succeeds (m : Machine) (hs : stronglyConnected m = true) (sink hsrc : Chip) (sources : List Chip)
+    (wrap : Bool) (hsink : chipOk m sink = true) (hns : sources.contains sink = false)
+    (hsrc' : ∃ s, s ∈ sources ∧ chipOk m s = true) : ∃ path, aStar sink hsrc sources m wrap = .ok path :=
+  L.aStar_succeeds m hs sink hsrc sources wrap hsink hns hsrc'
+
+/-- non-vacuity: a 3 x 3 machine with a dead chip and dead links that is still strongly connected -/
+example : stronglyConnected ⟨3, 3, [(1, 1)], [((0, 0), 0), ((2, 2), 3)]⟩ = true := by decide +kernel
 
 end Rig.C03
